@@ -60,8 +60,18 @@ SPEC_FAMILY = {
     "left_rec_plain": ('<start> ::= <e>\n<e> ::= <e> "+" <t> | <t>\n<t> ::= <t> "*" <f> | <f>\n<f> ::= "1" | "(" <e> ")"\n', ["1+1*1", "(1+1)*1", "1+"]),
     "left_rec_empty_tail": ('<start> ::= <line> "!"\n<line> ::= <line> <pad> | "y"\n<pad> ::= " "?\n', ["y!", "y !", "y"]),
     "option_group_bounded": ('<start> ::= (<a>?){0,3} "x"\n<a> ::= "a"\n', ["ax", "x", "aax"]),
+    # an unbounded repetition over a REGEX terminal: in prefix mode a regex that has matched nothing yet is a (partial) match
+    "star_over_regex": ('<start> ::= "#" <any>*\n<any> ::= r"."\n', ["#", "#ab"]),
+    "plus_over_regex_then_literal": ('<start> ::= <d>+ ";"\n<d> ::= r"[0-9]"\n', ["12;", "1"]),
     "ambiguous_concat": ('<start> ::= <s>\n<s> ::= <s> <s> | "a"\n', ["aaaa", "aaaaa"]),
 }
+
+
+# specs whose prefix-mode request is consumed to its end (mode prefix_forest)
+# (none: a prefix-mode request answers with a STREAM of partial derivations, which is legitimately unbounded for left-recursive
+#  rules -- <e> ::= <e> "+" <t> has partial derivations of every nesting depth for the input "1" -- and the property asks that
+#  the request returns, not that the stream is finite; the mode stays available for experiments)
+PREFIX_FOREST_SPECS = ()
 
 
 def is_spec_case(case) -> bool:
@@ -93,6 +103,11 @@ elif mode == "forest_twice":
         # the forest is finite and was consumed to its end: the same request again has to end as well (no cap here)
         for t in g.parse_forest(w):
             n += 1
+elif mode == "prefix_forest":
+    # the WHOLE forest of a prefix-mode request (a finite input has finitely many partial derivations)
+    n = 0
+    for t in g.parse_forest(w, mode=ParsingMode.INCOMPLETE):
+        n += 1
 else:
     n = 0
     for t in g.parse_forest(w, mode=ParsingMode.INCOMPLETE):
@@ -171,6 +186,8 @@ def run(tier="quick", seed=0, pid="C06"):
             for m in (MODES if tier != "quick" else ("first", "forest", "prefix")):
                 cases.append(("spec:" + name, "", w, m))
             cases.append(("spec:" + name, "", w, "forest_twice"))
+            if name in PREFIX_FOREST_SPECS:
+                cases.append(("spec:" + name, "", w, "prefix_forest"))
     results = []
     with ThreadPoolExecutor(max_workers=min(16, os.cpu_count() or 4)) as ex:
         results = list(ex.map(lambda c: run_case(c, budget), cases))
